@@ -24,7 +24,7 @@ PROOF_TIMEOUT = {"quick": 2400, "thorough": 3300}
 EXHAUSTIVE = False
 MANIFEST = {
     "category": "proof",
-    "text": ("T4/T6 (partial proof): closed forms of the lunar event finders (perigee/apogee, node passages, maximum declinations in every run; the four moon phases in the thorough tier) proved on the regenerated code with every coefficient written out, refusals (TypeError/ValueError), deviation bound C by interval arithmetic and ordering/spacing through Spec/MoonFinder.v; further: the regenerated model of Moon.py is evaluated symbolically in the real-number instance "
+    "text": ("T4/T6 (partial proof): closed forms of the lunar event finders (perigee/apogee, node passages, maximum declinations; not moon_phase: evaluation too expensive) proved on the regenerated code with every coefficient written out, refusals (TypeError/ValueError), deviation bound C by interval arithmetic and ordering/spacing through Spec/MoonFinder.v; further: the regenerated model of Moon.py is evaluated symbolically in the real-number instance "
              "(pyrun driver with innermost-first arithmetic and the Angle constructor/reduce_deg/to_positive abstracted through "
              "lemmas proved on the generated Angle model for EVERY real argument): Angle(Angle.reduce_deg(x)).to_positive() = "
              "x mod 360 in [0,360); closed forms of the mean node / mean perigee longitudes (secular rates = the linear "
@@ -53,8 +53,9 @@ CLAUSES = {
     "longitude advances 11.5-15.6 deg/day": "unproved (searched)",
     "finders: k from the rounded fractional year is non-decreasing and takes every value": "proved [spec]",
     "results strictly increasing in k, consecutive results one mean month +-(2C+D) apart when 2C+D < B": "proved [spec]",
-    "finder closed forms on the regenerated code (perigee/apogee, node passages, maximum declinations; moon_phase x4 in the thorough tier): index k = round((year - y0) rate, 0) + target offset from the fractional year, result Epoch(mean(k) + periodic terms) [+ Angle(parallax) / Angle(declination)], every coefficient": "proved [ideal; Epoch.get_date/is_leap/get_doy values, Epoch(x) and Angle(0,0,p) as hypotheses]",
-    "deviation |result - (J0 + B k)| <= C on -41 <= T <= 21 with 2C < B (C = 1.28 / 1.96 / 4.20 / 2.16 d nodes / apogee / perigee / declination; phases 0.95..1.18 d) => consecutive results strictly ordered, B +- 2C apart, never backwards": "proved [ideal + spec: interval arithmetic on the proved coefficients, C15_finder_timing]",
+    "moon_phase closed form (4 targets)": "unproved (searched + bit-exact correspondence): symbolic evaluation of one target exceeds 40 min / 6 GB (18 reduced angles, 45 terms); its refusals are proved",
+    "finder closed forms on the regenerated code (perigee, apogee, ascending/descending node passages, northern/southern maximum declinations): index k = round((year - y0) rate, 0) + target offset from the fractional year, result Epoch(mean(k) + periodic terms) [+ Angle(parallax) / Angle(declination)], every coefficient": "proved [ideal; Epoch.get_date/is_leap/get_doy values, Epoch(x) and Angle(0,0,p) as hypotheses]",
+    "deviation |result - (J0 + B k)| <= C on -41 <= T <= 21 with 2C < B (C = 1.28 / 1.96 / 4.20 / 2.16 d nodes / apogee / perigee / declination) => consecutive results strictly ordered, B +- 2C apart, never backwards": "proved [ideal + spec: interval arithmetic on the proved coefficients, C15_finder_timing]",
     "results within 1.6 months of the query": "refuted on the unchanged tree for late years (known finding query-distance-1.6-months: moon_phase(Epoch(2600,1,12),'last') is 1.604 months later; up to 1.93 at year 4000); calibrated gross bound 2.0 months searched (key query-distance-gross)",
     "finder instants agree with the position theory (0.06 deg / 0.25 d / 0.02 deg / 0.25 d, 0.15 deg)": "unproved (searched at every distinct event of the sample years)",
     "every target string; TypeError / ValueError": "proved [ideal] for every finder: TypeError for a None/bool/int/float/str epoch or a non-string target, ValueError for the listed wrong strings (empty, wrong case, other finders' targets); arbitrary strings searched",
@@ -67,9 +68,9 @@ PROOF_FILES = ["C15_angle.v", "C15_tac.v", "C15_j2000.v", "C15_nodes.v", "C15_il
 def proof_files(tier):
     fs = (list(PROOF_FILES) + ["C15_tac2.v", "C15_fdefs.v"]
           + ["C15_f_%s.v" % t for t in FINDER_TARGETS_QUICK] + ["C15_e_%s.v" % f for f in FINDER_NAMES])
-    if tier != "quick":
-        # Moon.moon_phase (4 targets): several minutes and GB each
-        fs += ["C15_f_%s.v" % t for t in FINDER_TARGETS_THOROUGH] + ["C15_phase.v"]
+    # Moon.moon_phase (4 targets, 18 reduced angles, ~45 terms): mkmoon.py writes the closed-form files too, but one
+    # target needs > 40 min and 6 GB with the present evaluation tactic (cost is quadratic in the length of the
+    # function body); they are not part of the check (FINDER_TARGETS_THOROUGH is informational)
     return fs + ["C15.v"]
 
 
